@@ -22,7 +22,7 @@ EXPLANATION = (
     "callback operand, call result) on all paths -- never a parameter of reset/step or an object owned by self (e.g. the "
     "State stored inside a generator); (R4) no Python `if`/`while`/`assert`/`and`/`or`/`not`/bool()/int()/float() on a "
     "value derived from reset's key or step's (state, action) other than through static attributes "
-    "(.shape/.ndim/.dtype/len/isinstance/is None). (R5) every State leaf whose symbolic shape can be inferred has the same shape after reset and after step, which lax.scan roll-outs, lax.cond (auto-reset) and vmap over states require. These make reset/step deterministic functions of their arguments "
+    "(.shape/.ndim/.dtype/len/isinstance/is None). (R6) no class of the environments, wrappers or specs writes class-level / module-level state in any method, constructors included (a fresh instance with the same configuration behaves the same). (R5) every State leaf whose symbolic shape can be inferred has the same shape after reset and after step, which lax.scan roll-outs, lax.cond (auto-reset) and vmap over states require. These make reset/step deterministic functions of their arguments "
     "and traceable, which is the jumanji-side premise of commuting with jit/vmap/scan. Not decided: bitwise equality "
     "of eager/jit/vmap/scan results (XLA semantics). Assumption: jax.disable_jit() is out of scope for R3.")
 
@@ -229,6 +229,8 @@ def check(tier: str) -> Result:
         res.add("C02.R4", ea.cls.loc(), env, "no Python control flow on traced values",
                 not any(o.ok is False and o.rule == "C02.R4" and o.site.startswith(ea.cls.module.relpath.rsplit('/', 1)[0]) for o in res.obligations),
                 "python-level tests in the closure examined")
+    from . import wiring
+    n_cs = wiring.class_state_writes(res, tree, "C02.R6", lambda ci: ci.module.name.startswith("jumanji.environments.") and not ci.module.name.endswith(".types") or ci.module.name in ("jumanji.wrappers", "jumanji.specs"))
     from . import shape_rules
     n_shapes = shape_rules.state_shape_obligations(res, tree, "C02.R5")
     res.analysed = {"state_leaf_shapes_compared": n_shapes, "environments": len(analyses(tree)), "closure_functions": tot_funcs, "call_sites_scanned": tot_calls,
